@@ -1,22 +1,29 @@
 from ..runner import Harness, Spec
+from ..translate import go_translator
 
 SPEC = Spec(
     pid="C09",
     lean_modules=["OtelVerif.Props.C09"],
+    # per-signal(-pair) dispatch of the graph builder (connectorStability, connectorNode.build*, builders.*, node/glue switches) and the
+    # error formats, regenerated from service/internal/graph/*.go + service/internal/builders/*.go; consumed by C09_stability_dispatch,
+    # C09_connector_build_dispatch, C09_component_build_dispatch, graph_message_formats
+    translators=[go_translator("graphdispatch", "OtelVerif/Gen/GraphDispatch.lean")],
     harnesses=[
         Harness(name="graph", module="service", pkg="service/internal/graph",
                 files={"zz_verif_c09_graph_test.go": "c09/graph_test.go"},
                 test="TestVerifC09Graph", driver="drv_c09", n={"quick": 2500, "thorough": 40000}, timeout_s=1500),
     ],
-    rule="corpus of 15 hand-made topologies first (cases 0-14, harness/c09/graph_test.go vCorpus), then random service configurations (1-6 pipelines over 1-4 signals, "
+    rule="corpus of 17 hand-made topologies first (cases 0-16, harness/c09/graph_test.go vCorpus; 15 = no pipeline, 16 = profiles pipeline with the feature gate off), then random service configurations (1-6 pipelines over 1-4 signals, "
          "0-3 receivers/exporters/processors per pipeline from 4 ids, 0-3 connectors with random support matrices, 60% built "
          "acyclic-by-construction, 40% unconstrained incl. self/one-sided/unsupported uses, duplicated list entries, a connector "
          "id that also names a receiver) run through the real graph.Build with instrumented components of all four signals; "
          "every pipelines.Config value is first validated with xconfmap.Validate (as otelcol does; dumped before/after: validation must be "
-         "read-only) and the very same value is then built; processor ids include k10/k11 and lists of up to 4 in random order so the "
+         "read-only; ~8% of the cases with the feature gate service.profilesSupport switched off; model validateAll) and the very same value is then built; processor ids include k10/k11 and lists of up to 4 in random order so the "
          "configured order differs from the lexical one; ~6% of the cases fail validation (no receiver / no exporter / duplicated "
          "processor) and are not built; 5% have one receiver/exporter factory fail inside buildComponents (Build must return the error; model "
-         "buildWith); in 20% of the built cases one to three exporters/processors return an error from Consume (after recording/forwarding) and "
+         "buildWith); every second case is built TWICE from the very same pipelines.Config value (all observations on the second build) and the value is dumped before/after every build (Build must not modify its input); 4% of the random cases replace one receiver/exporter/processor entry by an id that is referenced but unavailable (not configured / no factory: "
+         "the error branches of builders.*Builder.Create*, class create); every second connector support matrix without a profiles pair is served by a plain connector.NewFactory "
+         "(not an xconnector.Factory: the guards of connectorStability); the text of every connector error is parsed and judged by the Lean monitor connMsgOk; in 20% of the built cases one to three exporters/processors return an error from Consume (after recording/forwarding) and "
          "the route multisets must be unchanged; 30% of the plain exporters declare MutatesData (besides all processors); the CONTEXT of every injected payload is a "
          "dimension: live 40% / already cancelled 20% / deadline expired 20% / cancelled by a component at the k-th Consume call 20% - routing must not depend on "
          "it, the route multisets are diffed as they are; one tagged payload injected at every receiver instance. thorough adds the exhaustive scope <=3 pipelines x 2 signals x "
@@ -31,6 +38,8 @@ SPEC = Spec(
         "instrumented test connectors either forward every payload to their whole router or select next pipelines by id through the router API (Conn.sel, modelled by flowEdges); other run-time behaviours of real connectors are not modelled",
         "gonum topo.Sort is trusted to fail iff the component graph has a directed cycle (the model's `sortable` is PROVED to have that property; gonum's code is not examined); fnv-64a node ids are assumed collision-free on the keys of one configuration",
         "run-time law 'every consumer hands the payload to each next consumer exactly once, also when a sibling fails' is a law of the fan-out consumers (property C06) and of the test components; C09 exercises it with failing exporters/processors in 20% of the built cases (route multisets must not change) but does not prove it",
+        "translator graphdispatch (go/ast): the per-signal(-pair) switches of connectorStability, connectorNode.build*, builders.*Builder.Create*, the node buildComponent methods and the capabilities/fan-out glue are regenerated into Gen/GraphDispatch.lean on every run and proved to stay within their own signal (pair) (C09_stability_dispatch, C09_connector_build_dispatch, C09_component_build_dispatch); trusted: the translator itself, incl. its decoding of method names (TracesToMetricsStability) into signal codes",
+        "content of the connector error: which unsupported use createNodes reports is Go map order and not modelled; the reported use is checked by the monitor connMsgOk (C09_connector_message_sound) to be a genuine unsupported use listing exactly its pipelines; a configured connector whose factory is missing is not generated",
         "the prop verdicts (routing/sharing/reject) are computed with the model functions whose meaning C09_check_sound states on the configuration alone; the independently written config-level enumerators are only a per-case cross-check of the model (prop refagree)",
     ],
     assumptions=[
